@@ -1,7 +1,300 @@
-(* placeholder while the pipeline is brought up *)
-From Coq Require Import Reals Lra Psatz.
-From LibaV Require Import Common.NumOps Common.ROps C10.CxDefs.
+(* C10 - complex arithmetic and functions (src/complex.c, include/a/complex.h, constants of include/a/math.h).
+   Theorems over R about the model coq/C10/CxDefs.v instantiated with R_ops / R_ext (exact real arithmetic, libm names
+   = the real functions).  RO = R_ops, RE = R_ext, C = R * R (Coquelicot).  `*_fb` = fallback body, `c*_ B` = the function
+   under the binding B of the A_HAVE_C* switches, fb_bind = all switches off.
+   NOT carried by any theorem: floating-point rounding ("within a small multiple of machine precision") - that part of the
+   property is sampled by checks/C10.py (tie 2) and is PARTIAL. *)
+From Coq Require Import Reals ZArith.
+From Coquelicot Require Import Coquelicot.
+From LibaV Require Import Common.NumOps Common.ROps C10.CxDefs C10.CxReal C10.CxField C10.CxSqrt C10.CxExpLog C10.CxConst
+  C10.CxTrig C10.CxInverse C10.CxExamples.
 Local Open Scope R_scope.
-Theorem c10_abs2_nonneg : forall z : R * R, 0 <= abs2 R_ops z.
-Proof. intros [x y]. unfold abs2. cbn. nra. Qed.
-Print Assumptions c10_abs2_nonneg.
+
+(* ---------------------------------------------------------------- field arithmetic *)
+Theorem c10_mul : forall x z : C, mul_ RO x z = Cmult x z.
+Proof. exact mul_Cmult. Qed.
+Print Assumptions c10_mul.
+
+Theorem c10_div : forall x z : C, z <> (0, 0) -> cabs RO z <> 0 /\ div_ RO x z = Cdiv x z.
+Proof. exact div_Cdiv. Qed.
+Print Assumptions c10_div.
+
+Theorem c10_inv : forall z : C, z <> (0, 0) -> cabs RO z <> 0 /\ inv_ RO z = Cinv z.
+Proof. exact inv_Cinv. Qed.
+Print Assumptions c10_inv.
+
+Theorem c10_add : forall x y : C, cadd RO x y = Cplus x y.
+Proof. exact add_Cplus. Qed.
+Print Assumptions c10_add.
+Theorem c10_sub : forall x y : C, csub RO x y = Cminus x y.
+Proof. exact sub_Cminus. Qed.
+Print Assumptions c10_sub.
+Theorem c10_neg : forall z : C, neg RO z = Copp z.
+Proof. exact neg_Copp. Qed.
+Print Assumptions c10_neg.
+Theorem c10_conj : forall z : C, conj RO z = Cconj z.
+Proof. exact conj_Cconj. Qed.
+Print Assumptions c10_conj.
+
+Theorem c10_modulus : forall z : C, cabs RO z = Cmod z.
+Proof. exact cabs_Cmod. Qed.
+Print Assumptions c10_modulus.
+Theorem c10_abs2 : forall z : C, abs2 RO z = Cmod z * Cmod z.
+Proof. exact abs2_Cmod. Qed.
+Print Assumptions c10_abs2.
+
+(* real- and imaginary-scalar forms = the operation with (y, 0) resp. (0, y) *)
+Theorem c10_add_real : forall x y, add_real RO x y = cadd RO x (y, 0).
+Proof. exact add_real_spec. Qed.
+Print Assumptions c10_add_real.
+Theorem c10_add_imag : forall x y, add_imag RO x y = cadd RO x (0, y).
+Proof. exact add_imag_spec. Qed.
+Print Assumptions c10_add_imag.
+Theorem c10_sub_real : forall x y, sub_real RO x y = csub RO x (y, 0).
+Proof. exact sub_real_spec. Qed.
+Print Assumptions c10_sub_real.
+Theorem c10_sub_imag : forall x y, sub_imag RO x y = csub RO x (0, y).
+Proof. exact sub_imag_spec. Qed.
+Print Assumptions c10_sub_imag.
+Theorem c10_mul_real : forall x y, mul_real RO x y = mul_ RO x (y, 0).
+Proof. exact mul_real_spec. Qed.
+Print Assumptions c10_mul_real.
+Theorem c10_mul_imag : forall x y, mul_imag RO x y = mul_ RO x (0, y).
+Proof. exact mul_imag_spec. Qed.
+Print Assumptions c10_mul_imag.
+Theorem c10_div_real : forall x y, y <> 0 -> div_real RO x y = div_ RO x (y, 0).
+Proof. exact div_real_spec. Qed.
+Print Assumptions c10_div_real.
+Theorem c10_div_imag : forall x y, y <> 0 -> div_imag RO x y = div_ RO x (0, y).
+Proof. exact div_imag_spec. Qed.
+Print Assumptions c10_div_imag.
+
+(* documented inverse pairs compose to the identity *)
+Theorem c10_mul_div_real_id : forall z y, y <> 0 -> div_real RO (mul_real RO z y) y = z.
+Proof. exact mul_div_real_id. Qed.
+Print Assumptions c10_mul_div_real_id.
+Theorem c10_div_mul_real_id : forall z y, y <> 0 -> mul_real RO (div_real RO z y) y = z.
+Proof. exact div_mul_real_id. Qed.
+Print Assumptions c10_div_mul_real_id.
+Theorem c10_mul_div_imag_id : forall z y, y <> 0 -> div_imag RO (mul_imag RO z y) y = z.
+Proof. exact mul_div_imag_id. Qed.
+Print Assumptions c10_mul_div_imag_id.
+Theorem c10_div_mul_imag_id : forall z y, y <> 0 -> mul_imag RO (div_imag RO z y) y = z.
+Proof. exact div_mul_imag_id. Qed.
+Print Assumptions c10_div_mul_imag_id.
+Theorem c10_inv_inv_id : forall z : C, z <> (0, 0) -> inv_ RO (inv_ RO z) = z.
+Proof. exact inv_inv_id. Qed.
+Print Assumptions c10_inv_inv_id.
+Theorem c10_div_mul_id : forall x z : C, z <> (0, 0) -> mul_ RO (div_ RO x z) z = x.
+Proof. exact div_mul_id. Qed.
+Print Assumptions c10_div_mul_id.
+
+(* the body of a_complex_div_imag as found in the repository (before proposed_fixes/C10-1) composes to -z *)
+Theorem c10_div_imag_unfixed_refuted :
+  exists z y, y <> 0 /\ div_imag_unfixed RO (mul_imag RO z y) y <> z /\ div_imag_unfixed RO (mul_imag RO z y) y = neg RO z.
+Proof. exact div_imag_unfixed_refuted. Qed.
+Print Assumptions c10_div_imag_unfixed_refuted.
+
+(* ---------------------------------------------------------------- square root *)
+(* THE principal root: w*w = z and (Re w > 0 or Re w = 0 and Im w >= 0), every z: four quadrants, both axes, origin *)
+Theorem c10_sqrt_principal : forall z : C, principal_root (sqrt_fb RO RE z) z.
+Proof. exact sqrt_fb_principal. Qed.
+Print Assumptions c10_sqrt_principal.
+(* definedness on the way: w > 0 (the divisor 2w), 2 w^2 = |Re z| + |z| *)
+Theorem c10_sqrt_defined : forall z : C, z <> (0, 0) ->
+  let w := sqrt_w RO RE z in 0 < w /\ 2 * (w * w) = Rabs (fst z) + R_sqrt.sqrt (fst z * fst z + snd z * snd z).
+Proof. exact sqrt_w_spec. Qed.
+Print Assumptions c10_sqrt_defined.
+Theorem c10_sqrt_unfixed_refuted : exists z : C, ~ principal_root (sqrt_fb_unfixed RO RE z) z.
+Proof. exact sqrt_fb_unfixed_refuted. Qed.
+Print Assumptions c10_sqrt_unfixed_refuted.
+Theorem c10_sqrt_real : forall x : R, principal_root (sqrt_real RO x) (x, 0).
+Proof. exact sqrt_real_principal. Qed.
+Print Assumptions c10_sqrt_real.
+Theorem c10_sqrt_real_axis : forall x : R, sqrt_fb RO RE (x, 0) = sqrt_real RO x.
+Proof. exact sqrt_fb_real_axis. Qed.
+Print Assumptions c10_sqrt_real_axis.
+
+(* ---------------------------------------------------------------- modulus / argument / polar / exp / log / pow *)
+Theorem c10_logabs : forall z : C, z <> (0, 0) -> logabs RO z = ln (Cmod z).
+Proof. exact logabs_spec. Qed.
+Print Assumptions c10_logabs.
+Theorem c10_arg : forall z : C, z <> (0, 0) ->
+  let t := arg RO RE z in - PI < t <= PI /\ fst z = Cmod z * cos t /\ snd z = Cmod z * sin t.
+Proof. exact arg_spec. Qed.
+Print Assumptions c10_arg.
+Theorem c10_polar : forall rho t : R, 0 < rho -> - PI < t <= PI ->
+  cabs RO (polar RO rho t) = rho /\ arg RO RE (polar RO rho t) = t.
+Proof. exact polar_abs_arg. Qed.
+Print Assumptions c10_polar.
+Theorem c10_exp : forall z : C, exp_fb RO z = Cexp z.
+Proof. exact exp_fb_Cexp. Qed.
+Print Assumptions c10_exp.
+Theorem c10_exp_add : forall a b : C, exp_fb RO (cadd RO a b) = mul_ RO (exp_fb RO a) (exp_fb RO b).
+Proof. exact exp_fb_add. Qed.
+Print Assumptions c10_exp_add.
+Theorem c10_exp_log_id : forall z : C, z <> (0, 0) -> exp_fb RO (log_fb RO RE z) = z.
+Proof. exact exp_log_id. Qed.
+Print Assumptions c10_exp_log_id.
+Theorem c10_log_exp_id : forall z : C, - PI < snd z <= PI -> log_fb RO RE (exp_fb RO z) = z.
+Proof. exact log_exp_id. Qed.
+Print Assumptions c10_log_exp_id.
+Theorem c10_pow : forall z a : C, z <> (0, 0) -> pow_fb RO RE z a = exp_fb RO (mul_ RO a (log_fb RO RE z)).
+Proof. exact pow_fb_spec. Qed.
+Print Assumptions c10_pow.
+Theorem c10_pow_zero : forall a : C,
+  pow_fb RO RE (0, 0) a = if Req_EM_T (fst a) 0 then (if Req_EM_T (snd a) 0 then (1, 0) else (0, 0)) else (0, 0).
+Proof. exact pow_fb_zero. Qed.
+Print Assumptions c10_pow_zero.
+Theorem c10_pow_real : forall (z : C) (a : R), pow_real_ RO RE z a = pow_fb RO RE z (a, 0).
+Proof. exact pow_real_spec. Qed.
+Print Assumptions c10_pow_real.
+
+(* logarithms to base 2, 10, b:  2^(log2 z) = z, 10^(log10 z) = z with b^w = exp (w ln b) *)
+Theorem c10_log2 : forall z : C, z <> (0, 0) -> exp_fb RO (mul_real RO (log2_ RO RE fb_bind z) (ln 2)) = z.
+Proof. exact log2_spec. Qed.
+Print Assumptions c10_log2.
+Theorem c10_log10 : forall z : C, z <> (0, 0) -> exp_fb RO (mul_real RO (log10_ RO RE fb_bind z) (ln 10)) = z.
+Proof. exact log10_spec. Qed.
+Print Assumptions c10_log10.
+Theorem c10_log2_any_binding : forall (B : Binding R) (z : C),
+  log2_ RO RE B z = (fst (clog_ RO RE B z) / ln 2, snd (clog_ RO RE B z) / ln 2).
+Proof. exact log2_any. Qed.
+Print Assumptions c10_log2_any_binding.
+Theorem c10_log10_any_binding : forall (B : Binding R) (z : C),
+  log10_ RO RE B z = (fst (clog_ RO RE B z) / ln 10, snd (clog_ RO RE B z) / ln 10).
+Proof. exact log10_any. Qed.
+Print Assumptions c10_log10_any_binding.
+Theorem c10_logb_any_binding : forall (B : Binding R) (z b : C), clog_ RO RE B b <> (0, 0) ->
+  logb_ RO RE B z b = Cdiv (clog_ RO RE B z) (clog_ RO RE B b) /\
+  mul_ RO (logb_ RO RE B z b) (clog_ RO RE B b) = clog_ RO RE B z.
+Proof. exact logb_any. Qed.
+Print Assumptions c10_logb_any_binding.
+
+(* the binary64 literals of a/math.h that complex.c uses are within 2^-53 (relative) of the exact constants *)
+Theorem c10_const_sqrt1_2 : Rabs (lit SQRT1_2_m SQRT1_2_e * R_sqrt.sqrt 2 - 1) <= / 2 ^ 53.
+Proof. exact const_sqrt1_2. Qed.
+Print Assumptions c10_const_sqrt1_2.
+Theorem c10_const_pi : Rabs (lit PI_m PI_e / PI - 1) <= / 2 ^ 53.
+Proof. exact const_pi. Qed.
+Print Assumptions c10_const_pi.
+Theorem c10_const_pi_2 : Rabs (lit PI_2_m PI_2_e / (PI / 2) - 1) <= / 2 ^ 53.
+Proof. exact const_pi_2. Qed.
+Print Assumptions c10_const_pi_2.
+Theorem c10_const_ln1_2 : Rabs (lit LN1_2_m LN1_2_e * ln 2 - 1) <= / 2 ^ 53.
+Proof. exact const_ln1_2. Qed.
+Print Assumptions c10_const_ln1_2.
+Theorem c10_const_ln1_10 : Rabs (lit LN1_10_m LN1_10_e * ln 10 - 1) <= / 2 ^ 53.
+Proof. exact const_ln1_10. Qed.
+Print Assumptions c10_const_ln1_10.
+(* the literal as found (before proposed_fixes/C10-2) is log2(10) *)
+Theorem c10_const_ln1_2_unfixed_refuted :
+  Rabs (lit LN1_2_bad_m LN1_2_bad_e * ln 2 - 1) >= 1 /\ Rabs (lit LN1_2_bad_m LN1_2_bad_e * ln 2 - ln 10) <= / 2 ^ 50.
+Proof. exact const_ln1_2_unfixed_refuted. Qed.
+Print Assumptions c10_const_ln1_2_unfixed_refuted.
+
+(* ---------------------------------------------------------------- forward trigonometric / hyperbolic families *)
+Theorem c10_sin : forall z : C, sin_fb RO z = Csin z.
+Proof. exact sin_fb_spec. Qed.
+Print Assumptions c10_sin.
+Theorem c10_cos : forall z : C, cos_fb RO z = Ccos z.
+Proof. exact cos_fb_spec. Qed.
+Print Assumptions c10_cos.
+Theorem c10_sinh : forall z : C, sinh_fb RO z = Csinh z.
+Proof. exact sinh_fb_spec. Qed.
+Print Assumptions c10_sinh.
+Theorem c10_cosh : forall z : C, cosh_fb RO z = Ccosh z.
+Proof. exact cosh_fb_spec. Qed.
+Print Assumptions c10_cosh.
+Theorem c10_tan : forall z : C, Ccos z <> (0, 0) ->
+  cos (fst z) * cos (fst z) + sinh (snd z) * sinh (snd z) <> 0 /\ tan_fb RO RE z = Ctan z.
+Proof. exact tan_fb_spec. Qed.
+Print Assumptions c10_tan.
+Theorem c10_tanh : forall z : C, Ccosh z <> (0, 0) ->
+  cos (snd z) * cos (snd z) + sinh (fst z) * sinh (fst z) <> 0 /\ tanh_fb RO RE z = Ctanh z.
+Proof. exact tanh_fb_spec. Qed.
+Print Assumptions c10_tanh.
+(* reciprocal families, for every binding of the underlying function *)
+Theorem c10_sec : forall (B : Binding R) z, ccos_ RO B z <> (0, 0) -> sec_ RO B z = Cinv (ccos_ RO B z).
+Proof. exact sec_spec. Qed.
+Print Assumptions c10_sec.
+Theorem c10_csc : forall (B : Binding R) z, csin_ RO B z <> (0, 0) -> csc_ RO B z = Cinv (csin_ RO B z).
+Proof. exact csc_spec. Qed.
+Print Assumptions c10_csc.
+Theorem c10_cot : forall (B : Binding R) z, ctan_ RO RE B z <> (0, 0) -> cot_ RO RE B z = Cinv (ctan_ RO RE B z).
+Proof. exact cot_spec. Qed.
+Print Assumptions c10_cot.
+Theorem c10_sech : forall (B : Binding R) z, ccosh_ RO B z <> (0, 0) -> sech_ RO B z = Cinv (ccosh_ RO B z).
+Proof. exact sech_spec. Qed.
+Print Assumptions c10_sech.
+Theorem c10_csch : forall (B : Binding R) z, csinh_ RO B z <> (0, 0) -> csch_ RO B z = Cinv (csinh_ RO B z).
+Proof. exact csch_spec. Qed.
+Print Assumptions c10_csch.
+Theorem c10_coth : forall (B : Binding R) z, ctanh_ RO RE B z <> (0, 0) -> coth_ RO RE B z = Cinv (ctanh_ RO RE B z).
+Proof. exact coth_spec. Qed.
+Print Assumptions c10_coth.
+Theorem c10_sec_fallback : forall z, Ccos z <> (0, 0) -> sec_ RO fb_bind z = Cinv (Ccos z).
+Proof. exact sec_fb_spec. Qed.
+Print Assumptions c10_sec_fallback.
+Theorem c10_cot_fallback : forall z, Ccos z <> (0, 0) -> Ctan z <> (0, 0) -> cot_ RO RE fb_bind z = Cinv (Ctan z).
+Proof. exact cot_fb_spec. Qed.
+Print Assumptions c10_cot_fallback.
+
+(* ---------------------------------------------------------------- inverse families: structure, for every binding *)
+Theorem c10_asinh_structure : forall (B : Binding R) z, asinh_fb RO RE B z = Cmult (Copp Ci) (casin_ RO RE B (Cmult Ci z)).
+Proof. exact asinh_structure. Qed.
+Print Assumptions c10_asinh_structure.
+Theorem c10_atanh_structure : forall (B : Binding R) z, snd z <> 0 ->
+  atanh_fb RO RE B z = Cmult (Copp Ci) (catan_ RO RE B (Cmult Ci z)).
+Proof. exact atanh_structure. Qed.
+Print Assumptions c10_atanh_structure.
+Theorem c10_acosh_structure : forall (B : Binding R) z,
+  let w := cacos_ RO RE B z in
+  (acosh_fb RO RE B z = Cmult (Copp Ci) w \/ acosh_fb RO RE B z = Cmult Ci w) /\ 0 <= fst (acosh_fb RO RE B z).
+Proof. exact acosh_structure. Qed.
+Print Assumptions c10_acosh_structure.
+Theorem c10_asec_structure : forall (B : Binding R) z, z <> (0, 0) -> asec_ RO RE B z = cacos_ RO RE B (Cinv z).
+Proof. exact asec_structure. Qed.
+Print Assumptions c10_asec_structure.
+Theorem c10_acsc_structure : forall (B : Binding R) z, z <> (0, 0) -> acsc_ RO RE B z = casin_ RO RE B (Cinv z).
+Proof. exact acsc_structure. Qed.
+Print Assumptions c10_acsc_structure.
+Theorem c10_acot_structure : forall (B : Binding R) z, z <> (0, 0) -> acot_ RO RE B z = catan_ RO RE B (Cinv z).
+Proof. exact acot_structure. Qed.
+Print Assumptions c10_acot_structure.
+Theorem c10_asech_structure : forall (B : Binding R) z, z <> (0, 0) -> asech_ RO RE B z = cacosh_ RO RE B (Cinv z).
+Proof. exact asech_structure. Qed.
+Print Assumptions c10_asech_structure.
+Theorem c10_acsch_structure : forall (B : Binding R) z, z <> (0, 0) -> acsch_ RO RE B z = casinh_ RO RE B (Cinv z).
+Proof. exact acsch_structure. Qed.
+Print Assumptions c10_acsch_structure.
+Theorem c10_acoth_structure : forall (B : Binding R) z, z <> (0, 0) -> acoth_ RO RE B z = catanh_ RO RE B (Cinv z).
+Proof. exact acoth_structure. Qed.
+Print Assumptions c10_acoth_structure.
+
+(* ---------------------------------------------------------------- real-argument variants *)
+Theorem c10_asin_real_axis : forall x, asin_fb RO RE (x, 0) = asin_real RO RE x.
+Proof. exact asin_fb_real_axis. Qed.
+Print Assumptions c10_asin_real_axis.
+Theorem c10_acos_real_axis : forall x, acos_fb RO RE (x, 0) = acos_real RO RE x.
+Proof. exact acos_fb_real_axis. Qed.
+Print Assumptions c10_acos_real_axis.
+Theorem c10_atanh_real_axis : forall (B : Binding R) x, atanh_fb RO RE B (x, 0) = atanh_real RO RE x.
+Proof. exact atanh_fb_real_axis. Qed.
+Print Assumptions c10_atanh_real_axis.
+Theorem c10_asec_real : forall x, x <> 0 -> asec_real RO RE x = acos_real RO RE (1 / x).
+Proof. exact asec_real_spec. Qed.
+Print Assumptions c10_asec_real.
+Theorem c10_acsc_real : forall x, x <> 0 -> acsc_real RO RE x = asin_real RO RE (1 / x).
+Proof. exact acsc_real_spec. Qed.
+Print Assumptions c10_acsc_real.
+(* residuals for EVERY real x (inside and outside [-1,1]): sin(asin_real x) = x etc. *)
+Theorem c10_asin_real_residual : forall x, Csin (asin_real RO RE x) = (x, 0).
+Proof. exact asin_real_residual. Qed.
+Print Assumptions c10_asin_real_residual.
+Theorem c10_acos_real_residual : forall x, Ccos (acos_real RO RE x) = (x, 0).
+Proof. exact acos_real_residual. Qed.
+Print Assumptions c10_acos_real_residual.
+Theorem c10_acosh_real_residual : forall x, Ccosh (acosh_real RO RE x) = (x, 0) /\ 0 <= fst (acosh_real RO RE x).
+Proof. exact acosh_real_residual. Qed.
+Print Assumptions c10_acosh_real_residual.
